@@ -1211,6 +1211,26 @@ def rule_entry_guard(prog):
                             type_only = True
                 if int_ret and type_only:
                     guarded, why = True, "`int` early return in a type-only arm"
+            # (c) combinator form: `lookup(..).filter(|entry| !entry.is_default()).map(|entry| .. entry.to_text_range(..))`
+            if guarded is None:
+                anc_l = list(anc)
+                for i_, p_ in enumerate(anc_l):
+                    if p_.get("k") != "Closure" or i_ == 0:
+                        continue
+                    par_ = anc_l[i_ - 1]
+                    if par_.get("k") != "MethodCall" or par_["m"] not in ("map", "and_then", "filter_map", "map_or", "map_or_else"):
+                        continue
+                    pids_ = {bd["id"] for q_ in p_.get("params") or [] for bd in hir.pat_bindings(q_)}
+                    if (hir.path_local(hir.strip_ref(hir.strip(recv_))) or {}).get("id") not in pids_:
+                        continue
+                    r_ = hir.strip(par_["recv"])
+                    while r_.get("k") == "MethodCall":
+                        if r_["m"] == "filter" and r_["args"] and hir.strip(r_["args"][0]).get("k") == "Closure":
+                            fb_ = hir.strip(hir.strip(r_["args"][0])["body"])
+                            if fb_.get("k") == "Unary" and str(fb_.get("op")) in ("!", "Not", "not") and any(
+                                    x_.get("k") == "MethodCall" and x_["m"] == "is_default" for x_ in hir.nodes(fb_)):
+                                guarded, why = True, "filter(!is_default()) in front of the conversion"
+                        r_ = hir.strip(r_["recv"])
             # (an entry looked up by the creator of an array type is no exception: an anonymous array's creator is the variable's own
             #  name, which may coincide with a predefined entry such as `int`)
             out.add(b["d"], "location of entry `%s` is produced only for user declarations" % (ep or "?").split("#")[0],
